@@ -1385,3 +1385,82 @@ func (b *Body) oneOperationPerStep(l *Ledger, ai *applyInfo) {
 		l.add("R-DISPATCH", b.Name, key, b.rel(fn.Pos()), Discharged, fmt.Sprintf("%d read(s) of the patch inside the dispatch loop, each at the loop index", n), true)
 	}
 }
+
+// decodeRefusals: the functions that turn a text into the library's own form fail only when
+// what they called failed. (R-DISPATCH) DecodePatch refuses a text only on the verdict of the
+// well-formedness gate, on the decoder's error or on the validator's error — not on the size
+// or shape of what was decoded (`[]` is a patch). (R-GATE) The decode hooks of the container
+// types (UnmarshalJSON of the node, the object and the array) hand back only errors of the
+// codec calls they make: a second check there refuses documents the grammar accepts.
+func (b *Body) decodeRefusals(l *Ledger, rule string, fns []*ssa.Function) {
+	for _, fn := range fns {
+		if fn == nil || len(fn.Blocks) == 0 {
+			continue
+		}
+		ei := errResultIndex(fn)
+		if ei < 0 {
+			continue
+		}
+		n := 0
+		bad := ""
+		for _, r := range liveReturns(fn) {
+			rv := retVal(r, ei)
+			if isNilConst(rv) {
+				continue
+			}
+			n++
+			// the error of a call, handed on (or wrapped) …
+			if call, _, ok := asResult(rootErr(rv)); ok {
+				if f := call.Call.StaticCallee(); f != nil && (f.Pkg == b.Lib || (b.Codec != nil && f.Pkg == b.Codec) || (f.Pkg != nil && f.Pkg.Pkg.Path() == "encoding/json")) {
+					continue
+				}
+			}
+			// … or a refusal decided by such a call's verdict
+			okDep := false
+			for _, e := range b.controlDeps(r.Block()) {
+				iff, isIf := lastInstr(e.From).(*ssa.If)
+				if !isIf {
+					continue
+				}
+				c0, _ := stripNot(iff.Cond)
+				if x, _, isNil := nilTestOfCond(c0); isNil && isErrorType(x.Type()) {
+					okDep = true
+				}
+				if call, isCall := c0.(*ssa.Call); isCall {
+					if f := call.Call.StaticCallee(); f != nil && b.Codec != nil && (f.Pkg == b.Codec || f.Pkg == b.Lib) {
+						okDep = true
+					}
+				}
+			}
+			if !okDep {
+				bad = "the error return at " + b.posOf(r) + " is not the failure of a call made here, nor decided by the gate's or a decoder's verdict: a text that is well-formed (and, for a patch, valid) is refused on some other ground"
+			}
+		}
+		if n == 0 {
+			continue
+		}
+		key := fname(fn) + ": refuses only what the gate, the decoder or the validator refused"
+		if bad != "" {
+			l.add(rule, b.Name, key, b.rel(fn.Pos()), Violated, bad, true)
+		} else {
+			l.add(rule, b.Name, key, b.rel(fn.Pos()), Discharged, fmt.Sprintf("%d error return(s), each the failure or the verdict of a call", n), true)
+		}
+	}
+}
+
+// rootErr: the error value behind fmt.Errorf("…%w", e) wrappings and conversions.
+func rootErr(v ssa.Value) ssa.Value {
+	for d := 0; d < 4; d++ {
+		v = unwrapConv(v)
+		call, ok := v.(*ssa.Call)
+		if !ok || !staticCalleeIs(&call.Call, "fmt", "Errorf") {
+			return v
+		}
+		ops := errorfWrapOperands(call)
+		if len(ops) != 1 {
+			return v
+		}
+		v = ops[0]
+	}
+	return v
+}
